@@ -115,7 +115,7 @@ def oracle_pseq(case, impl):
     if len(outs) != len(tuples):
         return "%d queries, %d results" % (len(tuples), len(outs))
     for i, (t, o) in enumerate(zip(tuples, outs)):
-        a, b, m = t.split("/")
+        a, b, m = t.split("/")[:3]
         want = _want_profile(entries, _opt(a), _opt(b), unhex(m))
         idb = b"" if want == "-" else unhex(want)
         ctx, path, prof = [unhex(x) for x in o.split(":")]
